@@ -148,7 +148,8 @@ package twig
 //@ define wsR(J, I) ite(J + 1 < I && isStartTrim(old(t.result[J+1]).Type) && old(t.result[J]).Type == TOKEN_TEXT, str_trimright(wsL(J, I), " \t\n\r"), wsL(J, I))
 //@ define wsDone(I) forall j int :: 0 <= j && j < len(t.result) ==> t.result[j].Type == old(t.result[j]).Type && t.result[j].Line == old(t.result[j]).Line && t.result[j].Value == wsR(j, I)
 
-//@ func (*ZeroAllocTokenizer).ApplyWhitespaceControl props: C13
+// (C04: nothing but the white space a dash asks for is taken out of the literal text)
+//@ func (*ZeroAllocTokenizer).ApplyWhitespaceControl props: C13 C04
 //@   modifies elems(t.result)
 //@   loop 1 invariant 0 <= i && i <= len(t.result) && wsDone(i)
 //@   ensures wsDone(len(t.result))
@@ -220,19 +221,21 @@ package twig
 //@   nilable env engine
 //@   fresh
 //@   ensures !ret.sandboxed && ret.env == env && ret.engine == engine && ret.parent == nil
-//@   ensures[C01] !ret.extending && ret.currentBlock == nil && ret.blockLevel == 0 && !ret.inParentCall && ret.lastLoadedTemplate == nil
-//@   ensures[C01] ret.blocks != ret.parentBlocks
-//@   ensures[C01] mapEmpty(ret.blocks) && mapEmpty(ret.parentBlocks) && mapEmpty(ret.macros)
-//@   ensures[C01] ret.context != nil && ret.context != context
+// (what a new context starts with is also what inheritance (C10), include scoping (C11), macro
+// calls (C12) and the per-render resolution of relative names (C02) start from)
+//@   ensures[C01,C02,C10,C11,C12] !ret.extending && ret.currentBlock == nil && ret.blockLevel == 0 && !ret.inParentCall && ret.lastLoadedTemplate == nil
+//@   ensures[C01,C10,C11] ret.blocks != ret.parentBlocks
+//@   ensures[C01,C10,C11,C12] mapEmpty(ret.blocks) && mapEmpty(ret.parentBlocks) && mapEmpty(ret.macros)
+//@   ensures[C01,C11,C12] ret.context != nil && ret.context != context
 //@   ensures freshRef(ret.context) && freshRef(ret.blocks) && freshRef(ret.parentBlocks) && freshRef(ret.macros)
 //@   ensures[C01] forall k string :: has(ret.context, k) == (context != nil && has(context, k))
 //@   ensures[C01] forall k string :: context != nil && has(context, k) ==> ret.context[k] == context[k]
 //@ func (*RenderContext).Clone props: C06 C01
 //@   fresh
 //@   ensures ret.sandboxed == ctx.sandboxed && ret.env == ctx.env && ret.engine == ctx.engine && ret.parent == ctx
-//@   ensures[C01] !ret.extending && ret.currentBlock == nil && ret.blockLevel == 0 && !ret.inParentCall
-//@   ensures[C01] mapEmpty(ret.context) && mapEmpty(ret.parentBlocks) && ret.lastLoadedTemplate == ctx.lastLoadedTemplate
-//@   ensures[C01] ret.blocks != nil && ret.blocks != ctx.blocks && ret.macros != nil && ret.macros != ctx.macros
+//@   ensures[C01,C10,C11] !ret.extending && ret.currentBlock == nil && ret.blockLevel == 0 && !ret.inParentCall
+//@   ensures[C01,C11,C02] mapEmpty(ret.context) && mapEmpty(ret.parentBlocks) && ret.lastLoadedTemplate == ctx.lastLoadedTemplate
+//@   ensures[C01,C10,C11] ret.blocks != nil && ret.blocks != ctx.blocks && ret.macros != nil && ret.macros != ctx.macros
 // retiring a context touches that context only
 //@ func (*RenderContext).Release props: C11
 //@   modifies ctx.env, ctx.engine, ctx.currentBlock, ctx.context, ctx.blocks, ctx.parentBlocks, ctx.macros, ctx.parent
@@ -627,7 +630,9 @@ package twig
 //@ impl (*Engine).Load props: C15
 //@   flag rely_tree yes
 //@   requires e.environment != nil
-//@   loop 1 invariant[C15] 0 - 1 <= rangeindex && rangeindex < len(e.loaders) && tr == loadsUpTo(old(tr), LS(), rangeindex + 1, name) && missUpTo(old(tr), LS(), rangeindex + 1, name)
+// (C11: the loop goes on to the next loader only after a loader answered with an error - a template
+// that a loader has but that does not parse is a failure of its own, not "missing")
+//@   loop 1 invariant[C15,C11] 0 - 1 <= rangeindex && rangeindex < len(e.loaders) && tr == loadsUpTo(old(tr), LS(), rangeindex + 1, name) && missUpTo(old(tr), LS(), rangeindex + 1, name)
 //@   ensures[C15] err == nil ==> (isHit() && ret0 == cached() && tr == old(tr)) || (exists k int :: 0 <= k && k < len(e.loaders) && missUpTo(old(tr), LS(), k, name) && loadErr(loadsUpTo(old(tr), LS(), k, name), e.loaders[k], name) == nil && tr == loadsUpTo(old(tr), LS(), k + 1, name) && ret0.source == loadSrc(loadsUpTo(old(tr), LS(), k, name), e.loaders[k], name) && ret0.name == name && ret0.loader == e.loaders[k])
 //@   ensures[C15] err == nil && !(isHit() && ret0 == cached()) && e.environment.cache ==> has(e.templates, name) && e.templates[name] == ret0
 //@   ensures[C15] !e.environment.cache || err != nil ==> tplSame()
@@ -649,11 +654,11 @@ package twig
 //@   ensures[C15] e.environment.cache || template.loader == nil ==> has(e.templates, name) && e.templates[name] == template
 //@   ensures[C15] template.lastModified == ite(old(template.lastModified) == 0, template.lastModified, old(template.lastModified))
 // a compiled template registered on an engine is served under its name with the compiled source
-//@ func (*Engine).RegisterCompiledTemplate props: C16
+//@ func (*Engine).RegisterCompiledTemplate props: C16 C15
 //@   requires e.environment != nil
 //@   nilable compiled
-//@   ensures[C16] err == nil && e.environment.cache ==> compiled != nil && has(e.templates, compiled.Name) && e.templates[compiled.Name].source == compiled.Source && e.templates[compiled.Name].name == compiled.Name
-//@   ensures[C16] err == nil && e.environment.cache && compiled.LastModified != 0 ==> e.templates[compiled.Name].lastModified == compiled.LastModified
+//@   ensures[C16,C15] err == nil && e.environment.cache ==> compiled != nil && has(e.templates, compiled.Name) && e.templates[compiled.Name].source == compiled.Source && e.templates[compiled.Name].name == compiled.Name
+//@   ensures[C16,C15] err == nil && e.environment.cache && compiled.LastModified != 0 ==> e.templates[compiled.Name].lastModified == compiled.LastModified
 
 // ---------------------------------------------------------------- attribute access (C20)
 // CacheOK: every entry of the attribute cache holds what reflection answers for its key (type,
@@ -815,10 +820,10 @@ package twig
 //@   ensures ret0 == lookRes(old(lk), ctx, name) && ret1 == lookErr(old(lk), ctx, name)
 //@ impl (*RenderContext).GetVariable props: C11
 //@   requires ctx.context != nil
-//@   ensures[C11] plainName() && has(ctx.context, name) ==> ret0 == ctx.context[name] && ret1 == nil && lk == old(lk)
-//@   ensures[C11] plainName() && !has(ctx.context, name) && globalHas() ==> ret0 == ctx.env.globals[name] && ret1 == nil && lk == old(lk)
-//@   ensures[C11] plainName() && !has(ctx.context, name) && !globalHas() && ctx.parent != nil ==> lk == emitLookup(old(lk), ctx.parent, name) && ret0 == lookRes(old(lk), ctx.parent, name) && ret1 == lookErr(old(lk), ctx.parent, name)
-//@   ensures[C11] plainName() && !has(ctx.context, name) && !globalHas() && ctx.parent == nil ==> ret0 == nil && ret1 == nil && lk == old(lk)
+//@   ensures[C11,C09,C12] plainName() && has(ctx.context, name) ==> ret0 == ctx.context[name] && ret1 == nil && lk == old(lk)
+//@   ensures[C11,C09,C12] plainName() && !has(ctx.context, name) && globalHas() ==> ret0 == ctx.env.globals[name] && ret1 == nil && lk == old(lk)
+//@   ensures[C11,C09,C12] plainName() && !has(ctx.context, name) && !globalHas() && ctx.parent != nil ==> lk == emitLookup(old(lk), ctx.parent, name) && ret0 == lookRes(old(lk), ctx.parent, name) && ret1 == lookErr(old(lk), ctx.parent, name)
+//@   ensures[C11,C09,C12] plainName() && !has(ctx.context, name) && !globalHas() && ctx.parent == nil ==> ret0 == nil && ret1 == nil && lk == old(lk)
 
 // The include tag's own scanner for the hash after "with" (tokenizeObjectContents), one byte per
 // round (i0, in0, sd0, cp0, st0: position, string state, opening quote, colon position and start of
@@ -839,6 +844,11 @@ package twig
 //@   loop 1 step[C08,C11] cp0 != 0 - 1 && start == st0 ==> colonPos == cp0
 //@   loop 1 step[C08,C11] in0 && inString ==> colonPos == cp0 && start == st0
 
+// include tag: what follows "with" goes to the tokenizers whole - the hash path only when the text
+// ends with the closing brace of the hash, so that no word after it ("only", "sandboxed", "ignore
+// missing") is lost on the way to the parser
+//@ func (*ZeroAllocTokenizer).processBlockTag props: C06 C11
+//@   atcall[C06,C11] (*ZeroAllocTokenizer).tokenizeObjectContents a1 == substr(contextExpr, 1, len(contextExpr) - 1)
 // A macro name is resolved in the innermost context that binds it: the context's own macros first,
 // otherwise exactly what the parent's lookup yields (the event is named, not interpreted), and
 // nothing without a parent - so a call reaches the same macro from every nesting depth.
@@ -922,7 +932,8 @@ package twig
 //@ apply tokwrites (*ZeroAllocTokenizer).tokenizeTemplatePath
 //@ func (*ZeroAllocTokenizer).GetStringConstant props: C05
 //@   modifies t.tempStrings, elems(t.tempStrings)
-//@   ensures ret == s
+// the canonical spelling of a name is the name (C20: which member x.Name means; C08, C14)
+//@   ensures[C05,C20,C08,C14] ret == s
 //@   ensures arrRef(t.tempStrings) == old(arrRef(t.tempStrings)) || freshArr(t.tempStrings)
 //@ func countNewlines props: C05
 //@   pure
@@ -950,7 +961,7 @@ package twig
 // tokenizers (so the two agree on it)
 //@   atcall[C14] (*ZeroAllocTokenizer).AddToken#3 a1 == TOKEN_TEXT && a2 == substr(t.source, tagLoc.Position, tagLoc.Position + tagLoc.Length)
 //@   atcall[C04,C14] (*ZeroAllocTokenizer).AddToken#4 a1 == TOKEN_TEXT && pos < tagLoc.Position && a2 == substr(t.source, pos, tagLoc.Position) && openAt(t.source, tagLoc.Position) && noOpen(t.source, pos, tagLoc.Position)
-//@   atcall[C04,C14] (*ZeroAllocTokenizer).AddToken#5 a2 == "" && openAt(t.source, tagLoc.Position) && noOpen(t.source, pos, tagLoc.Position) && a1 == startTok(t.source, tagLoc.Position)
+//@   atcall[C04,C14,C13] (*ZeroAllocTokenizer).AddToken#5 a2 == "" && openAt(t.source, tagLoc.Position) && noOpen(t.source, pos, tagLoc.Position) && a1 == startTok(t.source, tagLoc.Position)
 //@   atcall[C04,C14] (*ZeroAllocTokenizer).AddToken#6 a1 == TOKEN_TEXT && t.source[tagLoc.Position + 1] == 35 && a2 == substr(t.source, tagLoc.Position + 2, tagEndPos)
 //@   atcall[C04,C14] (*ZeroAllocTokenizer).AddToken#8 a2 == "" && endLength == 2 && tagContentStart == tagLoc.Position + ite(t.source[tagLoc.Position + 1] != 35 && dashAt(t.source, tagLoc.Position + 2), 3, 2)
 //@   atcall[C04,C14] (*ZeroAllocTokenizer).AddToken#8 closeAt(t.source, tagEndPos, ite(t.source[tagLoc.Position + 1] == 123, 125, t.source[tagLoc.Position + 1])) && noClose(t.source, tagContentStart, tagEndPos, ite(t.source[tagLoc.Position + 1] == 123, 125, t.source[tagLoc.Position + 1]))
@@ -984,7 +995,7 @@ package twig
 //@   atcall[C14] (*ZeroAllocTokenizer).AddToken#2 a1 == TOKEN_TEXT && a2 == substr(srcT(), nextTagPos, nextTagPos + tagLength)
 //@   atcall[C04,C14] (*ZeroAllocTokenizer).AddToken#3 a1 == TOKEN_TEXT && a2 == substr(srcT(), posT(), len(srcT())) && noOpen(srcT(), posT(), len(srcT()))
 //@   atcall[C04,C14] (*ZeroAllocTokenizer).AddToken#4 a1 == TOKEN_TEXT && posT() < nextTagPos && a2 == substr(srcT(), posT(), nextTagPos) && openAt(srcT(), nextTagPos) && noOpen(srcT(), posT(), nextTagPos)
-//@   atcall[C04,C14] (*ZeroAllocTokenizer).AddToken#5 a2 == "" && openAt(srcT(), nextTagPos) && noOpen(srcT(), posT(), nextTagPos) && a1 == startTok(srcT(), nextTagPos) && tagLength == ite(srcT()[nextTagPos + 1] != 35 && dashAt(srcT(), nextTagPos + 2), 3, 2)
+//@   atcall[C04,C14,C13] (*ZeroAllocTokenizer).AddToken#5 a2 == "" && openAt(srcT(), nextTagPos) && noOpen(srcT(), posT(), nextTagPos) && a1 == startTok(srcT(), nextTagPos) && tagLength == ite(srcT()[nextTagPos + 1] != 35 && dashAt(srcT(), nextTagPos + 2), 3, 2)
 //@   atcall[C04,C14] (*ZeroAllocTokenizer).AddToken#6 a1 == TOKEN_TEXT && tagType == TOKEN_COMMENT_START && a2 == substr(srcT(), posT(), posT() + nth(endPos, 2))
 //@   atcall[C04,C14] (*ZeroAllocTokenizer).AddToken#8 tagType == TOKEN_COMMENT_START ==> a1 == TOKEN_COMMENT_END && endTagLength == 2 && closeAt(srcT(), posT() + nth(endPos, 2), 35) && noClose(srcT(), posT(), posT() + nth(endPos, 2), 35)
 //@   atcall[C04,C14] (*ZeroAllocTokenizer).AddToken#8 (tagType == TOKEN_VAR_START || tagType == TOKEN_VAR_START_TRIM) && endTagLength == 2 ==> a1 == TOKEN_VAR_END && closeAt(srcT(), posT() + nth(endPos, 2), 125) && noClose(srcT(), posT(), posT() + nth(endPos, 2), 125) && !dashCloser(srcT(), posT(), posT() + nth(endPos, 2))
